@@ -3,6 +3,16 @@
 import json
 
 CHECKS = {
+ "C15": dict(level="model_checking", engine="E1",
+   technique="explicit-state BFS to closure over all reply/failure/clock histories of the real QueryEngine against an adaptive adversary, per-transition monitors",
+   text="For every query kind (find-node, get-record x quorum, get-providers, put/add-provider lookup phases) and every (replication, parallelism) in {1,2,3}^2, all seed sets of size <=2 and all orders in which in-flight peers fail, send the wrong message kind, or answer with ANY peer list of bounded size over universe+local+themselves are explored to closure on the real engine (4-5 remote peers). Monitors: never contact local / twice / unlearned; fresh in-flight <= parallelism (with virtual clock jumps past the 10 s slow-peer threshold); deadlock freedom; exactly one terminal, nothing after it; success lists = answered peers, sorted, <= replication, every closer learned peer contacted; records reported exactly once, no request after quorum; providers deduplicated. Put/announce tracking: success iff quorum many sends succeeded, for all event orders over <=3 peers.",
+   note="One query per engine instance. Universe of 4 (quick) / 5 (thorough) remote peers with fixed ids; reply lists bounded to 1-2 peers per reply. Time enters through a cfg offset-clock seam (std::time::Instant users). Defect found and repaired: fix commit 39f8b1c.",
+   design="§4 C15"),
+ "C18": dict(level="exploration", engine="E3",
+   technique="exhaustive enumeration of byte-string / multihash / key-blob grids, differential oracle against libp2p-identity plus round-trip oracles",
+   text="All byte strings of length <=2, a ~16k multihash grid (codes x declared length x actual length x fill, non-minimal varints), every truncation and substitution of 4 valid ids, base58/text and multiaddr shapes, every key blob length 0..=100 x 3 fills and 256 ed25519 keys are run through every parse path of litep2p::PeerId and of libp2p_identity::PeerId; acceptance and bytes must agree, every accepted id must survive bytes/base58/multiaddr/JSON/binary-serde round trips, derived ids must equal an independent recomputation. Exhaustive over the stated grids; this is a bounded neighbourhood, not all byte strings.",
+   note="Reference = libp2p-identity 0.2.14 from the cargo cache. The non-human-readable serde path is exercised with a small bytes-only serializer inside the check.",
+   design="§4 C18"),
  "C14": dict(level="model_checking", engine="E1",
    technique="exhaustive closest() sweep over all 7-peer tables x targets x k x bit shifts against brute-force XOR sort, plus explicit-state BFS of insertion/connection histories on full buckets of the real RoutingTable",
    text="closest(): every subset of 7 peers at crafted XOR distances, with and without an address-less placeholder, every target in a 16-distance neighbourhood, k in {1,2,3,20}, at 5 (quick) / 15 (thorough) bit positions including byte boundaries and the top of the key space, and one target per bucket index against a SHA-256 keyed table, compared with an independent brute-force order. Histories: all add/lookup/established/dial-failure sequences up to depth 3/4 from seven roots (full, nearly full, empty buckets with different connection patterns) with bucket placement, capacity, local-exclusion and never-displace-connected monitors after every step.",
@@ -29,9 +39,11 @@ manifest = {
     "enable": "harness/.cargo/config.toml sets rustflags = [\"--cfg\",\"litep2p_verif\",\"--cfg\",\"tokio_unstable\"] for the harness build, which compiles /repo as a path dependency",
     "baseline_off_cmd": "cd /repo && cargo nextest run --workspace --no-fail-fast --test-threads 8 --offline || cargo test --workspace --no-fail-fast --offline",
     "source_commits": json.load(open("/verif/hook_commits.json")),
-    "add_only": True,
+    "add_only": False,
   },
   "engines": [
+    {"name": "E3", "path": "harness/src/props", "serves_properties": [k for k,v in CHECKS.items() if v["engine"]=="E3"],
+     "kind_free_text": "exhaustive enumeration of a stated finite input / fault grid on a deterministic execution shape, differential or reference-model oracle per case"},
     {"name": "E1", "path": "harness/src/mc/e1.rs", "serves_properties": [k for k,v in CHECKS.items() if v["engine"]=="E1"],
      "kind_free_text": "explicit-state breadth-first exploration of the real component; state = action history replayed on a fresh object; dedup on 128-bit hash of a canonical snapshot; parallel per level; determinism re-check on every rebuild"},
   ],
@@ -49,7 +61,7 @@ manifest = {
     } for pid, c in sorted(CHECKS.items())
   ],
   "not_applicable": [{"property_id": k, "reason": v} for k, v in sorted(NOT_YET.items())],
-  "notes": "All checks run the real litep2p code (path dependency on /repo, rebuilt from the working tree on every invocation). Exit 2 = machinery error, never a verdict.",
+  "notes": "Hooks are additive except three line rewrites recorded in DESIGN.md §5 (std::time::Instant::now() call sites in kademlia/{store,query/find_node,query/get_record}.rs go through a local now() that is std::time::Instant::now() without the cfg). All checks run the real litep2p code (path dependency on /repo, rebuilt from the working tree on every invocation). Exit 2 = machinery error, never a verdict.",
 }
 json.dump(manifest, open("/verif/MANIFEST.json", "w"), indent=1)
 print("checks:", len(manifest["checks"]), "not_applicable:", len(manifest["not_applicable"]))
